@@ -197,6 +197,10 @@ struct Stats {
     events: BTreeMap<&'static str, u64>,
     recovery_episodes: u64,
     pc_episodes: u64,
+    pc_batches: u64,
+    pc_multi_run_batches: u64,
+    pc_over_threshold: u64,
+    pc_over_threshold_multi_run: u64,
     app_limited_holds: u64,
     min_margin: i64,
     max_cwnd: u64,
@@ -702,10 +706,86 @@ impl<CC: CongestionController> Hist<CC> {
         }
     }
 
+    /// recovery::persistent_congestion::Calculator fed with one loss-detection pass, against a
+    /// batch model of RFC 9002 7.6.2: the longest stretch between two ack-eliciting lost packets
+    /// with nothing but lost packets (consecutive packet numbers) between them
+    fn check_pc_calculator(&mut self, pns: &[u64]) {
+        use s2n_quic_core::{
+            frame::ack_elicitation::AckElicitation, inet::ExplicitCongestionNotification, path,
+            recovery::{persistent_congestion::Calculator, SentPacketInfo},
+            transmission, varint::VarInt,
+        };
+        let first = self.rtt.first_rtt_sample();
+        let mut calc = Calculator::new(first, path::Id::test_id());
+        // (pn, sent_us, ack-eliciting) of the packets the calculator may count
+        let mut eligible: Vec<(u64, u64, bool)> = Vec::new();
+        for &pn in pns {
+            let Some(p) = self.out.get(&pn) else { continue };
+            let ae = p.bytes > 0;
+            let info = SentPacketInfo::new(
+                ae,
+                p.bytes as usize,
+                ts(p.sent_us),
+                if ae { AckElicitation::Eliciting } else { AckElicitation::NonEliciting },
+                path::Id::test_id(),
+                ExplicitCongestionNotification::default(),
+                if p.mtu_probe { transmission::Mode::MtuProbing } else { transmission::Mode::Normal },
+                (),
+            );
+            calc.on_lost_packet(PacketNumberSpace::ApplicationData.new_packet_number(VarInt::new(pn).unwrap()), &info);
+            if !p.mtu_probe && first.is_some_and(|f| ts(p.sent_us) >= f) {
+                eligible.push((pn, p.sent_us, ae));
+            }
+        }
+        let mut want = 0u64;
+        let mut i = 0;
+        while i < eligible.len() {
+            let mut j = i;
+            while j + 1 < eligible.len() && eligible[j + 1].0 == eligible[j].0 + 1 {
+                j += 1;
+            }
+            let run = &eligible[i..=j];
+            if let (Some(a), Some(b)) = (run.iter().find(|e| e.2), run.iter().rev().find(|e| e.2)) {
+                want = want.max(b.1 - a.1);
+            }
+            i = j + 1;
+        }
+        let runs = {
+            let mut n = 0;
+            let mut prev = None;
+            for e in &eligible {
+                if prev != Some(e.0.wrapping_sub(1)) {
+                    n += 1;
+                }
+                prev = Some(e.0);
+            }
+            n
+        };
+        self.stats.pc_batches += 1;
+        if runs >= 2 {
+            self.stats.pc_multi_run_batches += 1;
+        }
+        let got = calc.persistent_congestion_duration().as_micros() as u64;
+        let thr = self.rtt.persistent_congestion_threshold().as_micros() as u64;
+        if want > thr {
+            self.stats.pc_over_threshold += 1;
+            if runs >= 2 {
+                self.stats.pc_over_threshold_multi_run += 1;
+            }
+        }
+        if got != want {
+            self.set_fail(
+                "persistent_congestion_duration",
+                format!("persistent_congestion::Calculator reports {got} us for the lost packets {:?} (pn, sent_us, ack-eliciting), the longest run of consecutive lost packets spans {want} us (threshold {thr} us)", eligible),
+            );
+        }
+    }
+
     fn decide_pc(&mut self, pns: &[u64]) -> bool {
         if self.rtt.first_rtt_sample().is_none() {
             return false; // RFC 9002 7.6.2: needs a prior RTT sample
         }
+        self.check_pc_calculator(pns);
         let ack_eliciting: Vec<u64> = pns
             .iter()
             .filter_map(|pn| self.out.get(pn))
@@ -1249,6 +1329,10 @@ pub fn run(p: &Params, sum: &mut Summary) {
                 acc.count(k, "persistent_congestion_episodes",
                     o.stats.pc_episodes,
                 );
+                acc.count(k, "pc_calculator_batches", o.stats.pc_batches);
+                acc.count(k, "pc_calculator_batches_with_several_runs", o.stats.pc_multi_run_batches);
+                acc.count(k, "pc_calculator_batches_over_threshold", o.stats.pc_over_threshold);
+                acc.count(k, "pc_calculator_batches_over_threshold_with_several_runs", o.stats.pc_over_threshold_multi_run);
                 acc.count(k, "acks_checked_while_clearly_app_limited",
                     o.stats.app_limited_holds,
                 );
